@@ -167,6 +167,14 @@ pub fn run(ctx: &Ctx) -> CheckResult {
                             });
                         }
                     }
+                    // k = 1, the deviation being a reset(): the instance is re-used in mid-stream; everything
+                    // after it is checked (the statistic restarts with t = 0 and an empty window)
+                    for &p in &[1usize, n / 2, n.saturating_sub(1), n, n + 1, n + n / 2, 2 * n] {
+                        if p < len {
+                            let after: Vec<usize> = (p + 2..=len).filter(|s| n <= 64 || (s - p) % 7 == 0 || (s - p - 1) % n <= 2 || (s - p - 1) % n >= n - 2).collect();
+                            fams.push(Family { cfg, base: base.clone(), base_name: name, deviations: vec![(p, Op::Reset)], check_at: after });
+                        }
+                    }
                     // k = 2 (thorough, n <= 16): every pair of positions
                     if th && n <= 16 {
                         for p in 0..len {
@@ -231,7 +239,7 @@ pub fn run(ctx: &Ctx) -> CheckResult {
     }
     res.rule = "case = (configuration, operation history) replayed on a fresh real instance, output of the last op compared with the from-scratch double-double statistic of the last min(t,n) inputs since reset; distinct by construction (tree nodes / de-duplicated concrete states); non-trivial = oracle applicable and history longer than the window (at least one eviction)".into();
     res.bounds = format!(
-        "seq(S_int+reset, {}), seq(S_rough, {}) and seq(S_tiny(2^-60 unit)+reset, same depth), seq(S_ulp = neighbours 1 and 4 ulps apart) for n=1..5 x {{SMA,WMA,SD,MAD,MIN,MAX,BB(mult 2; 0,0.5,3,-1 at depth-2)}}; BFS fixpoint over S_int for SMA/WMA/MAD/MIN/MAX n=1..{}; periods 65537 and 100000 on a 70000-step stream (checked around step 65536); Default::default() instances; seq(S_nearmax = {{1e308, 1.1e308, 1.2e308, 1.05e308}}+reset, 6/8) compared after exact scaling by 2^-600; deviation-bounded families (4 base streams, k<=1{} deviations at every position) for periods {:?}",
+        "seq(S_int+reset, {}), seq(S_rough, {}) and seq(S_tiny(2^-60 unit)+reset, same depth), seq(S_ulp = neighbours 1 and 4 ulps apart) for n=1..5 x {{SMA,WMA,SD,MAD,MIN,MAX,BB(mult 2; 0,0.5,3,-1 at depth-2)}}; BFS fixpoint over S_int for SMA/WMA/MAD/MIN/MAX n=1..{}; periods 65537 and 100000 on a 70000-step stream (checked around step 65536); Default::default() instances; seq(S_nearmax = {{1e308, 1.1e308, 1.2e308, 1.05e308}}+reset, 6/8) compared after exact scaling by 2^-600; deviation-bounded families (4 base streams, k<=1{} deviations at every position; reset() at 7 positions) for periods {:?}",
         d_int,
         d_rough,
         d_bfs_n,
